@@ -60,7 +60,7 @@ func (s *Stats) Fault(kind string, configured, fired bool) {
 	if configured {
 		f[0]++
 	}
-	if fired {
+	if configured && fired { // "fired" means: the configured fault actually happened inside what was consumed
 		f[1]++
 	}
 }
